@@ -8,7 +8,8 @@ open OdfModel OdfModel.Xml OdfModel.LoadSax
   C <s>                                      -> ok                 characters
   E <ns> <local>                             -> ok | err crash     endElementNS
   endpart                                    -> ok                 the parser is dropped (open elements stay attached)
-  dump                                       -> ok (<section> <n> <tree>^n)^8   sections in the order
+  spaces                                     -> ok <hex>*           the code points the model takes for Python's \\s
+  dump                                       -> ok (<section> <k> (<ns> <local> <value>)^k <n> <tree>^n)^8   section attributes and children, in the order
                                                  meta scripts font-face-decls settings styles automatic-styles master-styles body
   state                                      -> ok parsing=<b> data=<s> root=<r> depth=<n> currdet=<b>
   fixxml <s>                                 -> ok <s>             __fixXmlPart
@@ -30,14 +31,23 @@ partial def showForest : Forest → List String
   | .cons h t => showNode h :: showForest t
 end
 
-def showSec (name : String) (f : Forest) : String :=
+def showSec (name : String) (attrs : List (QName × Str)) (f : Forest) : String :=
   let ks := showForest f
-  String.intercalate " " ([name, toString ks.length] ++ ks)
+  let as := attrs.map (fun (a : QName × Str) => Wire.enc a.1.ns ++ " " ++ Wire.enc a.1.loc ++ " " ++ Wire.enc a.2)
+  String.intercalate " " ([name, toString attrs.length] ++ as ++ [toString ks.length] ++ ks)
 
 def showDoc (d : Doc) : String :=
-  String.intercalate " " [showSec "meta" d.metaS, showSec "scripts" d.scripts, showSec "font-face-decls" d.fontFace,
-    showSec "settings" d.settings, showSec "styles" d.styles, showSec "automatic-styles" d.autoStyles,
-    showSec "master-styles" d.master, showSec "body" d.body]
+  String.intercalate " " [showSec "meta" (d.sattrs .metaS) d.metaS, showSec "scripts" (d.sattrs .scripts) d.scripts,
+    showSec "font-face-decls" (d.sattrs .fontFace) d.fontFace, showSec "settings" (d.sattrs .settings) d.settings,
+    showSec "styles" (d.sattrs .styles) d.styles, showSec "automatic-styles" (d.sattrs .autoStyles) d.autoStyles,
+    showSec "master-styles" (d.sattrs .master) d.master, showSec "body" (d.sattrs .body) d.body]
+
+/-- the code points `isPySpace` accepts -/
+def pySpaces : String := Id.run do
+  let mut out : Array String := #[]
+  for c in [0:0x110000] do
+    if isPySpace c then out := out.push (Wire.toHex c)
+  return String.intercalate " " out.toList
 
 def showRoot : Root → String
   | .unset => "unset" | .none => "none" | .top => "top" | .det => "det"
@@ -153,6 +163,7 @@ def handle (s : Session) (line : String) : Session × String :=
     match saveTrees rest with
     | some r => (s, "ok " ++ r)
     | none => (s, "err bad-arg")
+  | ["spaces"] => (s, "ok " ++ pySpaces)
   | ["fixxml", w] =>
     match Wire.dec w with
     | some x => (s, "ok " ++ Wire.enc (fixXmlPart x))
